@@ -215,6 +215,8 @@ def run(tier, seed):
     # failing command sites (no auditors)
     add(PLAY_HEAD % ("", "bad"), [], True, "a non-tolerated action fails", {"site": "action"})
     add(PLAY_HEAD % ("", "bad?"), [], False, "a tolerated action fails", {"site": "tolerated-action"})
+    add(PLAY_HEAD % ("", "ok?; bad"), [], True, "a non-tolerated action fails after a tolerated one of the same line", {"site": "action-after-tolerated"})
+    add(PLAY_HEAD % ("", "bad?; ok; bad?"), [], False, "only tolerated actions fail, around a succeeding one", {"site": "tolerated-action"})
     add(PLAY_HEAD % ("  cleanup false", "ok"), [], True, "the initial cleanup fails", {"site": "initial-cleanup"})
     add(PLAY_HEAD % ("  cleanup if [ -e ran ]; then exit 1; fi; touch ran", "ok"), [], True, "the final cleanup fails", {"site": "final-cleanup"})
     add(PLAY_HEAD % ("  spotlight exit 3", "ok"), [], True, "the spotlight fails", {"site": "spotlight"})
